@@ -200,7 +200,7 @@ theorem collect_eq_gets (t : Table α) (hr : Regular t.ep t.cls) (hwf : t.data.l
   have hle : t.len ≤ t.data.len := Nat.div_le_self _ _
   obtain ⟨items, it', hc, hm⟩ := collect_from t hr hwf t.len 0 (t.data.len + 1) [] (by omega) (by omega)
   refine ⟨items, ?_, ?_, hm⟩
-  · unfold Iter.collect Table.iter
+  · rw [Iter.collect_eq]; unfold Table.iter
     simp only [Nat.zero_mul] at hc
     rw [hc]; simp
   · have : (items.map Out.ok).length = (gets t 0 t.len).length := by rw [hm]
